@@ -70,3 +70,9 @@ package k8s
 //@ func NewK8sCacheStore props C19
 //@   modifies *
 //@   ensures [as_asked] typeis(result, "*objectStore") && unbox(result, "*objectStore") != nil && fresh(unbox(result, "*objectStore")) && unbox(result, "*objectStore").syncPeriod == syncPeriod && unbox(result, "*objectStore").shard == shard && unbox(result, "*objectStore").shardCount == shardCount && unbox(result, "*objectStore").gatewayClient == gatewayClient && !unbox(result, "*objectStore").stopped && unbox(result, "*objectStore").localStore != nil
+
+// An explicit flush persists every pending condition of this shard (it is the same pass Stop performs).
+//@ func (*objectStore).Flush props C19
+//@   requires [count] 1 <= s.shardCount && s.shardCount <= 4294967295
+//@   modifies *
+//@   ensures [flushed_listed] result == nil ==> flushedAll
